@@ -225,6 +225,12 @@ class Ctx:
 
     # -- lean gate ---------------------------------------------------------------------------
     def lean_gate(self):
+        if os.environ.get("VERIF_DEV_SKIP_LEAN") == "1":
+            # development aid only (mutation testing of the correspondence); never set by MANIFEST commands
+            self.notes.append("LEAN GATE SKIPPED (VERIF_DEV_SKIP_LEAN=1): this run proves nothing")
+            self.obligations = []
+            self.proof_skipped = True
+            return
         ok, log, dt = lean_build()
         self.cov["lean_build_s"] = round(dt, 2)
         if not ok:
@@ -311,6 +317,8 @@ class Ctx:
     def finish(self, rule: str, trusted: list[str], checker_cmd: str | None = None) -> int:
         if self._driver is not None:
             self._driver.close()
+        if getattr(self, "proof_skipped", False):
+            print(f"[{self.pid}] WARNING: Lean gate skipped (development mode)", flush=True)
         if self.proof_broken and self.violations == 0:
             # proof obligation no longer checks and the searches above found no failing input
             self.violation("proof obligation no longer checks: " + " | ".join(self.proof_broken)[:1500],
